@@ -1,7 +1,7 @@
 (* C26: witnesses and property-level statements; Props/C26.v only restates them. *)
 From Coq Require Import ZArith String.
 From ApolloVerif Require Import Base.Chars Ast.Ast Schema.Model Run.Json Run.Coerce Run.TypedDoc Run.Prog
-  Run.Execute Run.ExecTop Run.RefExecute Run.ExecKnown.
+  Run.Execute Run.ExecTop Run.RefExecute Run.ExecKnown Run.ExecProofs.
 Local Open Scope string_scope.
 Local Open Scope list_scope.
 
@@ -39,6 +39,63 @@ Lemma c26_covariant_refuted :
 Proof.
   split; [|split].
   - eexists. split; vm_compute; reflexivity.
+  - vm_compute. reflexivity.
+  - vm_compute. reflexivity.
+Qed.
+
+(* ---------------------------------------------------------------- the shape of the response *)
+(* for every request that gets a response (valid document, variables coerce, fuel not exhausted), under ANY
+   resolver world:
+   - the data, when present, is shaped by the operation's selection set on the root type: exactly the collected
+     response keys in order (minus undefined / resolver-skipped fields), lists nested as the selections' field
+     types say, leaves accepted by result coercion, and null only where the selection's field type, or the field's
+     type on the object type, is nullable;
+   - if the data is null, at least one field error is reported. *)
+Lemma c26_nonnull : forall s doc values w d vars root impls r log,
+  execute_prepare s doc values = EpReady d vars root impls ->
+  execute_request s doc values w = (EoResponse r, log) ->
+  (forall m, er_data r = Some m -> shape_obj (ex_cx_for s d vars) root impls (rd_sels d) m) /\
+  (er_data r = None -> er_errors r <> []).
+Proof.
+  intros s doc values w d vars root impls r log Hp H. unfold execute_request in H. rewrite Hp in H.
+  destruct (run_sync w (execute_prog s d vars root impls) []) as [[res st] lg] eqn:E.
+  injection H as H _. unfold execute_prog in E.
+  destruct (inv_all w (ex_cx_for s d vars) (ex_fuel_for d)) as (Hs & _).
+  destruct (Hs _ _ _ _ _ _ _ _ _ _ E) as [(new & -> & _ & Hn) Hm]. rewrite app_nil_r in H.
+  destruct res as [m| |]; cbn [ex_outcome] in H; try discriminate; injection H as <-; cbn [er_data er_errors].
+  - split; [|discriminate]. intros m' [= <-]. now apply Hm.
+  - split; [discriminate|]. intros _ Hr. apply (Hn eq_refl).
+    destruct new; [reflexivity|]. cbn [rev] in Hr. now apply app_eq_nil in Hr as [_ Hr].
+Qed.
+
+(* non-vacuity: a request with nested selections, an error and a nullified field *)
+Definition x_nv_schema : schema :=
+  {| sch_def := x_sdef; sch_dirdefs := [];
+     sch_types := [x_scalar "Int"; x_scalar "String";
+                   EObject None (xs "A") [] [] [x_fd "n" (TNonNullNamed (xs "Int")); x_fd "l" (TList (TNonNullNamed (xs "Int")))] false;
+                   EObject None (xs "Query") [] [] [x_fd "a" (TNamed (xs "A")); x_fd "b" (TNamed (xs "A"))] false] |}.
+(* { a { n l } b { n } __typename } *)
+Definition x_nv_doc : document :=
+  [DOperation OpQuery None [] []
+     [SField None (xs "a") [] [] [SField None (xs "n") [] [] []; SField None (xs "l") [] [] []];
+      SField None (xs "b") [] [] [SField None (xs "n") [] [] []];
+      SField None (xs "__typename") [] [] []]].
+Definition x_nv_world : world :=
+  [((0%N, xs "a"), BhObject 1%N (xs "A")); ((0%N, xs "b"), BhObject 2%N (xs "A"));
+   ((1%N, xs "n"), BhLeaf (JInt 1)); ((1%N, xs "l"), BhList [BhLeaf (JInt 2); BhLeaf JNull]);
+   ((2%N, xs "n"), BhLeaf (JStr (xs "x")))].
+
+Lemma c26_nonvacuous :
+  (exists d vars root impls, execute_prepare x_nv_schema x_nv_doc [] = EpReady d vars root impls) /\
+  fst (execute_request x_nv_schema x_nv_doc [] x_nv_world) =
+    EoResponse {| er_data := Some [(xs "a", JObj [(xs "n", JInt 1); (xs "l", JNull)]); (xs "b", JNull);
+                                   (xs "__typename", JStr (xs "Query"))];
+                  er_errors := [{| ge_class := EcNull; ge_path := [PsKey (xs "a"); PsKey (xs "l"); PsIdx 1%N] |};
+                                {| ge_class := EcLeaf; ge_path := [PsKey (xs "b"); PsKey (xs "n")] |}] |} /\
+  ref_execute x_nv_schema x_nv_doc [] x_nv_world = fst (execute_request x_nv_schema x_nv_doc [] x_nv_world).
+Proof.
+  split; [|split].
+  - vm_compute. repeat eexists.
   - vm_compute. reflexivity.
   - vm_compute. reflexivity.
 Qed.
